@@ -140,6 +140,12 @@ class ErrDomain:
         v = c.const_value()
         return None if v is None else v != 0
 
+    def unknown_cond(self):
+        # outcome of a reduction (np.all / np.any) that this entry does not force: both branches are
+        # kept, the error bound is the larger one
+        self._nunk = getattr(self, "_nunk", 0) + 1
+        return self.alg.indicator(self.alg.sym("reduction%d" % self._nunk)) if hasattr(self.alg, "indicator") else self.alg.sym("reduction%d" % self._nunk)
+
     def cand(self, a, b):
         return self.alg.mul(a, b)
 
